@@ -10,6 +10,7 @@ import (
 	"os"
 	"os/exec"
 	"path/filepath"
+	"runtime"
 	"slices"
 	"sort"
 	"strings"
@@ -1070,6 +1071,8 @@ func c09Sharded(c *mc.Check, n int, budget float64, stats *c09Stats, scnStates m
 func TestVerifC09(t *testing.T) {
 	c := mc.Begin(t, "C09", "model_checking")
 	defer c.End()
+	// the explorer is serial; one P keeps the goroutine-exit spin of the node assembly reliable on a loaded machine
+	defer runtime.GOMAXPROCS(runtime.GOMAXPROCS(1))
 	seed := c.Seed()
 	scns := c09Scenarios(c.Thorough())
 	stats := &c09Stats{wrongByDisc: map[string]int64{}}
